@@ -786,6 +786,12 @@ def check(ctx):
     # the dims setter renames in bulk: swaps must not collapse (shared with C13)
     from . import c13
     c13.rule_rename_loop(ctx, 'R4', ctx.fn('dimarray.core.bases.AbstractHasAxes._set_dims'), '_set_dims (dims setter)')
+    # from_json / from_jsondict are constructor forms too: values are laid out by the recorded shape, so that a values / labels mismatch still reaches
+    # the constructor's shape check (writer / reader tables shared with C19)
+    from . import c19 as _c19
+    from ..report import Renamed as _RenJ
+    ctx.rule('R11', 'JSON constructor form: reader lays the values out by the recorded shape (shared with C19)', 5)
+    _c19.rule_json(_RenJ(ctx, {'*': 'R11'}))
     ctx.not_decided += ['equality of arrays built from different argument forms (value level)',
                         'staleness of a MultiAxis label cache caused by another array mutating a shared member axis',
                         'Axes.from_dict ordering by shape (value level)']
